@@ -258,28 +258,42 @@ def tag_documents(rng, quick):
             ann = rng.choice([b"", b" // Title", b' // "q"', " // é".encode(), b" // a\xff"])
             lines.append(b"TAG " + t + ann + b"\n")
         used = set()
-        for _ in range(rng.randint(1, 4)):
+        urls = set()
+        for _ in range(rng.randint(1, 5)):
             p = rng.choice(TAG_PATHS)
-            form = rng.randint(0, 3)
+            form = rng.randint(0, 4)
             pool = decl if (decl and rng.random() < 0.8) else TAG_NAMES
             tags = b"Tags " + b" ".join(rng.sample(pool, min(len(pool), rng.randint(1, 2)))) + b"\n"
             m = rng.choice([b"GET", b"POST", b"PUT"])
-            if (m, p) in used:
+            if (m, p) in used or (form != 0 and p in urls):
                 continue
             used.add((m, p))
             if form == 0:
+                # a root-level method; it may share its path with a URL block written earlier or later
                 lines.append(m + b" " + p + b"\n" + (b"  " + tags if rng.random() < 0.4 else b"") + b"  200 any\n")
             elif form == 1:
+                urls.add(p)
                 lines.append(b"URL " + p + b"\n" + (b"  " + tags if rng.random() < 0.5 else b"") + b"  " + m + b"\n" +
                              (b"    " + tags if rng.random() < 0.3 else b"") + b"    200 any\n")
-                used.update((x, p) for x in (b"GET", b"POST", b"PUT"))
             elif form == 2:
+                urls.add(p)
                 lines.append(b"URL " + p + b"\n  Protocol json-rpc-2.0\n  Method m" + (b"\n    " + tags if rng.random() < 0.5 else b"\n") +
                              b"  Method n\n")
                 used.update((x, p) for x in (b"GET", b"POST", b"PUT"))
-            else:
+            elif form == 3:
+                urls.add(p)
                 lines.append(b"URL " + p + b"\n" + (b"  " + tags if rng.random() < 0.5 else b"") + b"  " + m + b" " + p + b"/sub\n    200 any\n")
-                used.update((x, p) for x in (b"GET", b"POST", b"PUT"))
+                used.discard((m, p))
+                used.add((m, p + b"/sub"))
+            else:
+                # a URL block with URL-level Tags and a child method, then a method with the same path that is not its child
+                # (written with its own path inside the block, so it leaves the block)
+                urls.add(p)
+                m2 = rng.choice([x for x in (b"GET", b"POST", b"PUT") if x != m])
+                if (m2, p) in used:
+                    continue
+                used.add((m2, p))
+                lines.append(b"URL " + p + b"\n  " + tags + b"  " + m + b"\n    200 any\n  " + m2 + b" " + p + b"\n    200 any\n")
         docs.append(("random", b"".join(lines)))
     return docs
 
